@@ -675,6 +675,32 @@ theorem bp_child_gp_terminates {s : State} (h : Reach s) :
       cases hp : s.pc t <;> simp_all [Pc.holdsR, Pc.blocked]
     exact ⟨fun hg => by simp [hg, Pc.holdsR] at h1, hb, by simp [step, hb]⟩
 
+/-- **mask_restored**: `urcu_bp_after_fork_parent()` and `urcu_bp_after_fork_child()` give the calling
+thread back exactly the signal mask it had when it entered `urcu_bp_before_fork()` – whatever other
+threads do meanwhile, in particular other threads entering `urcu_bp_before_fork()` with different
+masks (they block on `rcu_gp_lock`; `saved_fork_signal_mask` is only written with both locks held). -/
+theorem mask_restored {s s' : State} (h : Reach s) (t : Nat)
+    (st : step s (.apGp t) = some s' ∨ step s (.acGp t) = some s') :
+    s'.mask t = s.pre t ∧ s.mask t = s.pre t ∧ ∀ u, u ≠ t → s'.mask u = s.mask u := by
+  have i := inv_reach h
+  rcases st with st | st <;> simp only [step] at st <;> split at st
+  · rename_i hg
+    simp only [Option.some.injEq] at st; subst st
+    obtain ⟨h1, h2⟩ := i.mk_exit t (Or.inl hg.1)
+    exact ⟨by simp [upd, h1], h2, fun u hu => by simp [upd, hu]⟩
+  · cases st
+  · rename_i hg
+    simp only [Option.some.injEq] at st; subst st
+    obtain ⟨h1, h2⟩ := i.mk_exit t (Or.inr (Or.inr hg.1))
+    exact ⟨by simp [upd, h1], h2, fun u hu => by simp [upd, hu]⟩
+  · cases st
+
+/-- non-vacuity: thread 1 (mask 5) enters `urcu_bp_before_fork()` while thread 0 (mask 2) is between its
+`before_fork` and `after_fork_parent`; both get their own masks back -/
+example : ((run init [.setMask 0 2, .setMask 1 5, .bfCall 0, .bfGp 0, .bfRg 0, .bfCall 1, .forkParent 0, .apRg 0, .apGp 0,
+      .bfGp 1, .bfRg 1, .forkParent 1, .apRg 1, .apGp 1]).map
+      (fun s => s.mask 0 == 2 && s.mask 1 == 5 && s.gpl == none)) = some true := by decide
+
 /-- non-vacuity: thread 1 is inside a read-side section and thread 2 is registered when thread 0 forks;
 the child prunes both, its registry is `[0]`, both locks are released by the handler -/
 example : ((run init [.regBegin 0, .regEnd 0, .regBegin 1, .regEnd 1, .regBegin 2, .regEnd 2, .rlock 1, .rlock 1,
